@@ -130,6 +130,26 @@ Theorem oversize_closes :
     (forall rest h, parse_v2 (xbuf x') <> POk rest h) -> r = Close.
 Proof. exact expect_oversize_closes. Qed.
 
+(** expect_never_stalls: a session that goes on waiting for header bytes always
+    has room in its staging window (a full window whose bytes are still an
+    incomplete header has been widened, 28 -> 52 -> 232, or the session closed),
+    so its next read asks for at least one byte, and a read with room takes at
+    least one byte when one is there: the header is never left half read with
+    bytes waiting.  (A stage that is not widened when its window is full — the
+    seeded change r2_m2 — stalls every header longer than that window.) *)
+Theorem expect_never_stalls :
+  (forall x s x' s', expect_readable x s = (x', s', Continue) ->
+     length (xbuf x) <= stage_len (xstage x) -> length (xbuf x') < stage_len (xstage x')) /\
+  (forall s n s' bs r, sock_read s n = (s', bs, r) -> 0 < n -> inq s <> [] -> 0 < length bs).
+Proof. split; [exact expect_room_after_continue|exact sock_read_takes_a_byte]. Qed.
+
+(** the first 28 bytes of an IPv6 header fill the first window: the state continues with the 52-byte window *)
+Example expect_never_stalls_nonvacuous :
+  let hb := into_bytes (header_new Proxy (repeat 0%N 15 ++ [1%N]) 1 (repeat 255%N 16) 65535) in
+  exists x' s', expect_readable expect_new (mksock (firstn 28 hb) false false None false []) = (x', s', Continue)
+                /\ xstage x' = SV6 /\ length (xbuf x') = window_v4.
+Proof. eexists. eexists. vm_compute. repeat split; reflexivity. Qed.
+
 (* ---------------- send ---------------- *)
 
 (** under ANY schedule of write windows (one [back_writable] call per entry)
